@@ -1137,14 +1137,14 @@ class ClassNode(AstNode, NamespaceMixin):
         fields = kwargs.get("fields", None)
         if fields is not None:
             if not isinstance(fields, dict):
-                raise TypeError("fields must be a dictionary")
+                raise RuntimeError("fields must be a dictionary")
 
         if self.parse_keyword == "struct":
             self.wrap_as = self.options.wrap_struct_as
         elif self.parse_keyword == "class":
             self.wrap_as = self.options.wrap_class_as
         else:
-            raise TypeError("parse_keyword must be 'class' or 'struct'")
+            raise RuntimeError("parse_keyword must be 'class' or 'struct'")
         if ntypemap is not None:
             # From YAML typemap
             self.typemap = ntypemap
